@@ -23,6 +23,7 @@ TieBroken.
 import ast
 
 from .pyexpr import ExprT, TieBroken, find_class, find_func, strip_doc, sha
+from .normalize import parse_file, parse as norm_parse
 
 SRC = 'bobocep/dist/tcp.py'
 OUT = 'Frame.lean'
@@ -157,7 +158,7 @@ def _frame_steps(body):
             steps.append('.checkUrn')
             i += 2
             continue
-        if isinstance(st, ast.If) and ast.unparse(st.test) == 'pt_type == _TYPE_PING' and not st.body and not st.orelse:
+        if isinstance(st, ast.If) and ast.unparse(st.test) == 'pt_type == _TYPE_PING' and all(isinstance(x, ast.Pass) for x in st.body) and not st.orelse:
             i += 1          # only logging inside: no effect
             continue
         for tpl, tags in table:
@@ -219,8 +220,7 @@ def _handlers(fn):
 
 
 def translate(repo):
-    src = (repo / SRC).read_text()
-    tree = ast.parse(src)
+    src, tree = parse_file(repo, SRC)
     consts = {n: _module_int(tree, n) for n in ('_TYPE_SYNC', '_TYPE_PING', '_TYPE_RESYNC', '_FLAG_RESET')}
     if consts != {'_TYPE_SYNC': 0, '_TYPE_PING': 1, '_TYPE_RESYNC': 2, '_FLAG_RESET': 1}:
         raise TieBroken(f"message type / flag constants changed: {consts}")
